@@ -116,6 +116,11 @@ def r1_independent(R) -> None:
                 parents_ = {id(c_): p_ for p_ in ast.walk(ast.parse(kt, mode='eval')) for c_ in ast.iter_child_nodes(p_)}
                 if looked_up and not any(nm_ == 'self' for nm_ in whole_objects):
                     from rules.parser_roles import TermMatch, term_match_qualname
+                    from rules import memo as _memo
+                    lab_ = _memo.owned(R.repo, w)
+                    if lab_ is not None and not any(f_.kind == 'unread-match' for f_ in _memo.findings(R.repo) if f_.cache == lab_):
+                        R.ok(fq, f'`{text(w)[:50]}` fills the cache `{lab_}`: whether its key is complete is decided by rule C14.M')
+                        continue
                     verdicts = []
                     try:
                         if fq == term_match_qualname(R):
@@ -131,6 +136,11 @@ def r1_independent(R) -> None:
                         continue
                     raise Unknown(f'{fq}: `{text(w)[:60]}` fills a memo table keyed by `{kt[:50]}`: whether that key determines the cached value (so that the parse of a '
                                   f'statement does not depend on earlier ones) is not decided')
+            from rules import memo as _memo
+            lab_ = _memo.owned(R.repo, w)
+            if lab_ is not None and not any(f_.kind == 'unread-match' for f_ in _memo.findings(R.repo) if f_.cache == lab_):
+                R.ok(fq, f'`{text(w)[:50]}` fills the cache `{lab_}`: whether its key is complete is decided by rule C14.M')
+                continue
             R.violation(fq, 'global-write:' + text(w)[:60], f'`{text(w)[:70]}` writes module-level state: the parse of one statement could depend on earlier ones',
                         where=f'{fi.module.relpath}:{w.lineno}')
         if not ws:
